@@ -8,50 +8,69 @@ FULL STATEMENT (all grammars the spec reader accepts, all finite inputs, the var
         (∀ k x rhs, rhs ∈ pred k x → (x, rhs) ∈ compile G v.cap) →
         ∃ n m', run (mkCfg G v inp start pred) n (M.init _) = .done m' ∨ … = .raised m'
 
-(`FullStatement` below.)  What is proved here, for the model `Model/Earley.lean` (one-shot COMPLETE parse; the machine
-includes the loop that ends `predict` — /repo 1d73281f — and the open-ended `{n,}` tail — b48dd899):
+(`FullStatement` below.)  It is PROVED for the parser as it is (`C06_parse_terminates : FullStatement Variant.now`,
+`C06_generated_variant_terminates` for the variant the translator reads from the source on every run), for the
+model `Model/Earley.lean` (one-shot COMPLETE parse; the machine includes the loop that ends `predict` — /repo
+1d73281f —, the open-ended `{n,}` tail — b48dd899 —, the repetition shortcut, and the admission rule of the code:
+duplicate ⇔ same item AND same children, with the covering cut of /repo 73e5ffe3).  No `NoEpsCycle`-style hypothesis,
+no fuel in the statement: the step bound `stepBoundN c (chartBound c) + 1` is a function of the configuration.
 
 * `C06_core_item_space_finite`   the core item space of a column is finite, with the design's bound;
 * `C06_recognise_terminates`     for every rule table, prediction order, scanner, with or without the completing
                                  `predict`: the chart closure under `admitCore` (duplicate ⇔ same item) reaches
                                  `done`/`raised` within `stepBound c` steps, a function of the configuration
-                                 (well-founded measure `mu`, every step decreases it: `step_core`); no fuel in the
-                                 statement;
-* `C06_recognise_terminates_all_grammars`  = FullStatement for every variant with the core policy: every grammar,
-                                 input, start symbol, prediction order;
-* `C06_cut_terminates_witnesses` the parser as it is now (`Variant.now`: children in the admission test + the covering
-                                 cut in `complete`) finishes on the design's witness `("a"?)* "b"` / "ab" and on four
-                                 other grammars with a same-span self-derivation, with exactly the acyclic trees
+                                 (well-founded measure `mu`, every step decreases it: `step_core`);
+* `C06_recognise_terminates_all_grammars`  = FullStatement for every variant with the core policy;
+* `C06_steps_bounded_by_chart` / `C06_nontermination_needs_unbounded_chart`  EVERY admission policy, every grammar,
+                                 input, prediction order: a run that is still going after `n` steps and whose columns
+                                 hold at most `N` states has `n ≤ stepBoundN c N` (measure `muN`,
+                                 `Proofs/EarleyGrow.lean`): no loop outside the admissions (`complete`'s live list,
+                                 the loop that ends `predict`, the repetition shortcut included);
+* `C06_chart_bounded`            **the covering cut bounds the chart**: under the admission rule of the code
+                                 (`Policy.acyclic`) every column of every chart the machine builds — any rule table,
+                                 prediction order that only offers alternatives of the table, scanner that does not
+                                 move backwards — holds at most `chartBound c` states.  Proof
+                                 (`Proofs/EarleyBoundK.lean`, `Proofs/EarleyBound.lean`): every admitted state `s` of
+                                 column `j` has its children in the finite list `K c (base c j + lr c j s)`, where
+                                 the rank `lr` is (j − origin, number of nonterminals of the table in the covering set
+                                 of `s` as read in column `j`, dot) lexicographically.  A completion builds the new
+                                 state from a completed state `t` and an advanced state `s`; `s` has a smaller dot and
+                                 a covering set that is no larger, or lives in an earlier column; `t` starts later
+                                 than the new state, or — same span — its nonterminal is NOT in its own covering set
+                                 (otherwise `complete` cut it: `cyclicAt`) but IS in the new state's, which also
+                                 contains all of `t`'s: strictly more covered nonterminals.  So along every chain of
+                                 same-span derivations the covering set grows strictly, the rank is `< RR c`, and the
+                                 children of every admitted state are built in boundedly many rounds from finitely
+                                 many labels and leaves (`K`).  Invariant `Inv`, preserved by scan, predict,
+                                 complete, the completions that end `predict` and the repetition shortcut
+                                 (`step_inv`); pairwise different states with keys in a finite space: pigeonhole;
+* `C06_forest_terminates`        hence the machine of the code reaches `done`/`raised` within
+                                 `stepBoundN c (chartBound c) + 1` steps — every rule table, input, prediction order,
+                                 scanner oracle;
+* `C06_forest_terminates_all_grammars`  = FullStatement for every variant with the policy of the code;
+  `C06_parse_terminates`         = FullStatement Variant.now;
+  `C06_generated_variant_terminates`  the variant read from the source now is one the model has and FullStatement
+                                 holds for it (a source that went back to the OLD admission rule makes this
+                                 obligation fail — the check then reports F9 again);
+* `C06_cut_terminates_witnesses` the parser as it is now finishes on the design's witness `("a"?)* "b"` / "ab" and on
+                                 four other grammars with a same-span self-derivation, with exactly the acyclic trees
                                  (`decide +kernel`); the cut does not reject the input;
-* `C06_generated_variant_verdict` the verdict for the variant the translator read from the source *now*
-                                 (`Generated/Earley.lean`): it is one the model knows, and the witness terminates for
-                                 it (if the source went back to the OLD admission rule the witness would diverge and
-                                 this obligation would fail — the check then reports F9 again);
+* `C06_generated_variant_verdict` the verdict for the generated variant on the witness (concrete run);
 * `C06_old_admitImpl_diverges_example_partial`  OLD (the code before /repo 73e5ffe3, `Variant.old`; NOT true of the
                                  code as it is): FullStatement (Variant.old 20) is refuted on `("a"?)* "b"` / "ab" *up
                                  to the bound checked*: after 200, 400, 600 steps the machine is still running and the
                                  number of admitted states has grown each time.  Kept as the record of finding F9.
 
-* `C06_forest_terminates_partial` / `C06_nontermination_needs_unbounded_chart_partial`  EVERY admission policy — in
-                                 particular the one the code has (`Variant.now`) —, every grammar, input, prediction
-                                 order: a run that is still going after `n` steps and whose columns hold at most `N`
-                                 states has `n ≤ stepBoundN c N` (a function of the configuration and `N`; measure
-                                 `muN`, `Proofs/EarleyGrow.lean`).  So the machine has no way of running forever except
-                                 by admitting ever more states into one column: there is no loop outside the
-                                 admissions (`complete`'s live list, the loop that ends `predict`, the repetition
-                                 shortcut included).  Partial: that the chart stays bounded is the missing half.
-
-NOT proved — `FullStatement Variant.now` is the `_partial` gap: under the admission rule of the code (duplicate ⇔
-same item AND same children) termination needs that only finitely many children lists are admissible under the
-covering cut (every same-span nesting of derivations strictly shrinks the covering set — an induction over span
-length × covering set × dot that is not formalised).  What stands in for it per run: the per-column state
-correspondence with the real parser on every generated case (both finish, same states), the step bound derived
-from the model's own step count, and the lock-step prefix comparison where neither finishes within the budget.
-INCOMPLETE (prefix) mode is not modelled at all.
+NOT proved / not modelled: INCOMPLETE (prefix) mode is not modelled at all (only observed by the check: step meter on
+the real parser); the first-tree request is the forest run stopped early.  `chartBound` is a (huge, non-elementary
+looking) function of the configuration — it shows termination, not a useful complexity bound; the check's step
+budgets come from the model's own step count, not from it.  The tie of the model to /repo is the per-run
+correspondence of `harness/props/c06.py` (same states per column as the real parser, same forest) and the translator.
 -/
 import Model.Earley
 import Proofs.EarleyTerm
 import Proofs.EarleyGrow
+import Proofs.EarleyBound
 import Generated.Earley
 namespace FV.Earley
 
@@ -127,9 +146,9 @@ theorem C06_recognise_terminates_all_grammars (v : Variant) (hp : v.policy = .co
 
 /-- **every admission policy** (the code's included), every rule table, prediction order and scanner that does not
     move backwards: a run that has not stopped after `n` steps while every column of its chart holds at most `N`
-    states has `n ≤ stepBoundN c N`.  PARTIAL for FullStatement: what is missing is that the chart of `Variant.now`
-    stays bounded (finitely many children lists are admissible under the covering cut). -/
-theorem C06_forest_terminates_partial (c : Cfg) (hs : ScanMono c) (N n : Nat) (m : M)
+    states has `n ≤ stepBoundN c N`.  (The other half of FullStatement — the chart of `Variant.now` stays bounded —
+    is `C06_chart_bounded` below.) -/
+theorem C06_steps_bounded_by_chart (c : Cfg) (hs : ScanMono c) (N n : Nat) (m : M)
     (h : run c n (M.init c) = .next m) (hN : ∀ j, (colAt m.cols j).states.length ≤ N) :
     n ≤ stepBoundN c N :=
   run_any_bounded hs N n (M.init c) m (wfN_init c) h hN
@@ -137,7 +156,7 @@ theorem C06_forest_terminates_partial (c : Cfg) (hs : ScanMono c) (N n : Nat) (m
 /-- the same for the machine of any grammar, variant of the code, input, start symbol and prediction order (no
     hypothesis on the prediction order is needed), as a statement about divergence: a parse that never stops
     builds, for every `N`, a column with more than `N` states -/
-theorem C06_nontermination_needs_unbounded_chart_partial (G : Grammar) (v : Variant) (inp : Input) (start : String)
+theorem C06_nontermination_needs_unbounded_chart (G : Grammar) (v : Variant) (inp : Input) (start : String)
     (pred : Nat → NT → List (List ESym))
     (hdiv : ∀ n, ∃ m, run (mkCfg G v inp start pred) n (M.init (mkCfg G v inp start pred)) = .next m) :
     ∀ N, ∃ n m j, run (mkCfg G v inp start pred) n (M.init (mkCfg G v inp start pred)) = .next m
@@ -152,7 +171,7 @@ theorem C06_nontermination_needs_unbounded_chart_partial (G : Grammar) (v : Vari
     apply Classical.byContradiction
     intro hj
     exact hno ⟨_, m, j, hm, by omega⟩
-  have := C06_forest_terminates_partial _ hs N _ m hm hall
+  have := C06_steps_bounded_by_chart _ hs N _ m hm hall
   omega
 
 /-- non-vacuity: the witness run of the code as it is, one step before it stops, is such a run (`N = 27`) -/
@@ -175,6 +194,45 @@ example : ∃ m, run (cfgV G0 Variant.now) 86 (M.init (cfgV G0 Variant.now)) = .
     | some col =>
       have := List.all_eq_true.1 hall col (List.mem_of_getElem? hj)
       simpa using this
+
+/-- **the covering cut bounds the chart**: under the admission rule of the code (duplicate ⇔ same item and same
+    children; `complete` skips a finished state whose nonterminal is in its own covering set) every column of every
+    chart the machine builds holds at most `chartBound c` states — every rule table, every prediction order that only
+    offers alternatives of the table, every scanner that does not move backwards -/
+theorem C06_chart_bounded (c : Cfg) (hs : Sane c) (hp : c.policy = .acyclic) (n : Nat) (m : M)
+    (h : run c n (M.init c) = .next m) (j : Nat) : (colAt m.cols j).states.length ≤ chartBound c :=
+  run_chart_bounded hs hp n m h j
+
+/-- **the machine of the code stops**: `done` or `raised` within `stepBoundN c (chartBound c) + 1` steps, a function of
+    the configuration — for every rule table (nullable, cyclic, left/right recursive), input, prediction order and
+    scanner oracle; no hypothesis on the grammar -/
+theorem C06_forest_terminates (c : Cfg) (hs : Sane c) (hp : c.policy = .acyclic) :
+    ∃ m', run c (stepBoundN c (chartBound c) + 1) (M.init c) = .done m'
+        ∨ run c (stepBoundN c (chartBound c) + 1) (M.init c) = .raised m' :=
+  run_acyclic_finishes hs hp
+
+/-- the hypotheses of `C06_chart_bounded` / `C06_forest_terminates` are met by every compiled grammar on every input,
+    in particular by the cyclic witness grammar `("a"?)* "b"` with the machine of the code as it is now -/
+example : Sane (cfgOf (compile G0 none) Variant.now inAB "<start>")
+    ∧ (cfgOf (compile G0 none) Variant.now inAB "<start>").policy = .acyclic
+    ∧ hasEpsCycle (compile G0 none) = true :=
+  ⟨sane_cfgOf _ _ _ _, rfl, by decide +kernel⟩
+
+/-- **FullStatement for the admission rule of the code**: every grammar, every variant of compilation / scanner /
+    `predict` with the policy `acyclic`, every input, start symbol and prediction order -/
+theorem C06_forest_terminates_all_grammars (v : Variant) (hp : v.policy = .acyclic) : FullStatement v := by
+  intro G inp start pred hpred
+  obtain ⟨m', h⟩ := C06_forest_terminates (mkCfg G v inp start pred) (sane_mkCfg G v inp start pred hpred) hp
+  exact ⟨_, m', h⟩
+
+/-- **the parser as it is now terminates** on every grammar and every finite input (COMPLETE mode, whole forest) -/
+theorem C06_parse_terminates : FullStatement Variant.now :=
+  C06_forest_terminates_all_grammars Variant.now rfl
+
+/-- the variant the translator read from the source *now* is one the model has, and the full statement holds for it
+    (it fails to compile for a source with the OLD admission rule `impl`) -/
+theorem C06_generated_variant_terminates : ∃ v, Gen.variant = some v ∧ FullStatement v :=
+  ⟨_, rfl, C06_forest_terminates_all_grammars _ rfl⟩
 
 /-- the parser as it is now (children in the admission test + the covering cut, the completing `predict`, the
     open-ended tail) on the design's witness and four other grammars with a same-span self-derivation: it finishes
